@@ -38,6 +38,10 @@ Szs(h) == IF IsLast /\ LastSz # {} THEN LastSz
           THEN {IF Dom = "all" /\ RandomElement(1..4) = 1 THEN RandomElement(-1..(Size(h) + 2))
                                            ELSE RandomElement(-1..((Size(h) + 1) \div 2))}
           ELSE IF Dom = "in" THEN -1..Size(h) ELSE -1..(Size(h) + 1)
+\* Dom = "in": only (offset, size) pairs that designate a range of the block
+InR(h, off, sz) == Dom = "in" => RangeDom(Size(h), off, sz)
+InRz(h, sk, sz) == Dom = "in" => ResizeDom(Size(h), sk, sz)
+InC(h, sk, sz) == Dom = "in" => CopyDom(Size(h), sk, sz)
 Starts(h) == Pick(0..(Size(h) + 1))
 On(op) == op \in Ops /\ ((IsLast /\ LastOps # {}) => op \in LastOps)
 ObsOn(op) == On(op) /\ (ObsLast => IsLast)
@@ -52,23 +56,23 @@ Finish == /\ step = Depth /\ step' = Depth + 1
 
 CAlloc == step < Depth /\ On("alloc") /\ HasFree /\ \E p \in Pick(AllocPats) : Alloc(NewH, p, Pre)
 CDup == step < Depth /\ \E h \in Live : On("dup") /\ HasFree /\ Dup(NewH, h)
-CSplice == step < Depth /\ \E h \in Live : On("splice") /\ HasFree /\ \E off \in Offs(h), sz \in Szs(h) : Splice(NewH, h, off, sz)
+CSplice == step < Depth /\ \E h \in Live : On("splice") /\ HasFree /\ \E off \in Offs(h), sz \in Szs(h) : InR(h, off, sz) /\ Splice(NewH, h, off, sz)
 CSplit == step < Depth /\ \E h \in Live : On("split") /\ HasFree /\ \E off \in Offs(h) : Split(NewH, h, off)
-CCopy == step < Depth /\ \E h \in Live : On("copy") /\ HasFree /\ \E sk \in Offs(h), sz \in Szs(h) : Copy(NewH, h, sk, sz, Pre)
-CMerge == step < Depth /\ \E h \in Live : On("merge") /\ \E sk \in Offs(h), sz \in Szs(h) : Merge(h, sk, sz, Pre)
+CCopy == step < Depth /\ \E h \in Live : On("copy") /\ HasFree /\ \E sk \in Offs(h), sz \in Szs(h) : InC(h, sk, sz) /\ Copy(NewH, h, sk, sz, Pre)
+CMerge == step < Depth /\ \E h \in Live : On("merge") /\ \E sk \in Offs(h), sz \in Szs(h) : InC(h, sk, sz) /\ Merge(h, sk, sz, Pre)
 CAppend == step < Depth /\ \E h \in Live : On("append") /\ \E g \in Live \ {h} : AppendBlk(h, g)
 CInsert == step < Depth /\ \E h \in Live : On("insert") /\ \E g \in Live \ {h}, off \in Offs(h) : Insert(h, off, g)
-CDelete == step < Depth /\ \E h \in Live : On("delete") /\ \E off \in Offs(h), sz \in Szs(h) : Delete(h, off, sz)
+CDelete == step < Depth /\ \E h \in Live : On("delete") /\ \E off \in Offs(h), sz \in Szs(h) : InR(h, off, sz) /\ Delete(h, off, sz)
 CTruncate == step < Depth /\ \E h \in Live : On("truncate") /\ \E t \in Starts(h) : Truncate(h, t)
-CResize == step < Depth /\ \E h \in Live : On("resize") /\ \E sk \in Offs(h), sz \in Szs(h) : Resize(h, sk, sz)
+CResize == step < Depth /\ \E h \in Live : On("resize") /\ \E sk \in Offs(h), sz \in Szs(h) : InRz(h, sk, sz) /\ Resize(h, sk, sz)
 CPrepend == step < Depth /\ \E h \in Live : On("prepend") /\ \E k \in Pick(0..(Pre + 1)) : Prepend(h, k)
 CWmap == step < Depth /\ \E h \in Live : On("wmap") /\ \E off \in Offs(h), gr \in BOOLEAN : Write("wmap", h, off, 0, gr)
 CPoke == step < Depth /\ \E h \in Live : On("poke") /\ \E off \in Offs(h), v \in Pick(Letters), gr \in BOOLEAN : Write("poke", h, off, v, gr)
 CFree == step < Depth /\ \E h \in Live : On("free") /\ Free(h)
 CSize == step < Depth /\ \E h \in Live : ObsOn("size") /\ ObsSize(h)
 CRange == step < Depth /\ \E h \in Live : \E op \in {"read", "peek", "extract", "iovec"} :
-            ObsOn(op) /\ \E off \in Offs(h), sz \in Szs(h) : ObsRange(op, h, off, sz)
-CRd1 == step < Depth /\ \E h \in Live : ObsOn("rd1") /\ \E off \in Offs(h), sz \in Szs(h) : ObsRd1(h, off, sz)
+            ObsOn(op) /\ \E off \in Offs(h), sz \in Szs(h) : InR(h, off, sz) /\ ObsRange(op, h, off, sz)
+CRd1 == step < Depth /\ \E h \in Live : ObsOn("rd1") /\ \E off \in Offs(h), sz \in Szs(h) : InR(h, off, sz) /\ ObsRd1(h, off, sz)
 CSlin == step < Depth /\ \E h \in Live : ObsOn("slin") /\ \E off \in Offs(h) : ObsSlin(h, off)
 CScan == step < Depth /\ \E h \in Live : ObsOn("scan") /\ \E st \in Starts(h), w \in Pick(Letters) : ObsScan(h, st, w)
 CFind == step < Depth /\ \E h \in Live : ObsOn("find") /\ \E st \in Starts(h), ws \in Pick(FindWords) : ObsFind(h, st, ws)
